@@ -140,7 +140,7 @@ def simulate(
             **options,
         )
     else:
-        sm = init
+        sm = init.copy()  # do not write the options into the caller's state matrix
         sm.options.update(options)
 
     LOGGER.info(f"Initial state matrix: num. states: {sm.nstate}, shape: {sm.shape}")
